@@ -244,6 +244,87 @@ theorem ecsSlices_spec (h1 : Heap) (hw : HeapWF h1) (nc : Option (Nat × Option 
     · rw [sb.2.2, typSliceAt_frame sa.1, typSliceAt_frame sa.1,
         readSlice_frame sa.1 (hw.typAt ni).2, readSlice_frame sa.1 (hw.typAt si).2]
 
+/-! ### the frame of `coalesceH` -/
+
+theorem fill_wf {h : Heap} (hw : HeapWF h) (ids : List Nat) : HeapWF (fill h ids) := hw.mono (fill_hframe ids h)
+
+theorem coalesceH_hframe (T : Tables) (h : Heap) (hw : HeapWF h) (ids : List Nat) :
+    HFrame h (coalesceH T h ids).1 := by
+  have h1 := fill_hframe (touched (kept ids (ids.map (viewAt h)))) h
+  have h2 := (ecsSlices_spec _ (fill_wf hw (touched (kept ids (ids.map (viewAt h)))))
+    (normChoice T (ids.map (viewAt h)))).1
+  unfold coalesceH
+  simp only
+  split <;> exact h1.trans h2
+
+/-! ### reading an event -/
+
+def derefO (h : Heap) : Outcome EventH → Outcome Event
+  | .ok eh => .ok (deref h eh)
+  | .err x => .err x
+  | .panic => .panic
+
+/-- `deref` as a function of the five things it reads. -/
+def mkDeref (core : Event) (paths : List KV) (tags cat typ : List Bytes) : Event :=
+  { core with paths := paths, tags := tags, ecsCategory := cat, ecsType := typ }
+
+theorem deref_eq (h : Heap) (eh : EventH) :
+    deref h eh = mkDeref eh.core (eh.pathRefs.map (fun i => ((obsAt h i).data).getD []))
+      (tagsRead h eh.tagRef) (readSlice h eh.cat) (readSlice h eh.typ) := rfl
+
+theorem deref_congr {h1 h2 : Heap} {a b : EventH} (hc : a.core = b.core)
+    (hp : a.pathRefs.map (fun i => ((obsAt h1 i).data).getD []) = b.pathRefs.map (fun i => ((obsAt h2 i).data).getD []))
+    (ht : tagsRead h1 a.tagRef = tagsRead h2 b.tagRef)
+    (hcat : readSlice h1 a.cat = readSlice h2 b.cat) (htyp : readSlice h1 a.typ = readSlice h2 b.typ) :
+    deref h1 a = deref h2 b := by
+  rw [deref_eq, deref_eq, hc, hp, ht, hcat, htyp]
+
+/-- an event whose slices can be read in `h` (true of every event `coalesceH` returned, see
+`C15_returned_valid`). -/
+def EventValid (h : Heap) (eh : EventH) : Prop := SliceValid h eh.cat ∧ SliceValid h eh.typ
+
+theorem deref_frame {h h' : Heap} (hf : HFrame h h') {eh : EventH} (hv : EventValid h eh) :
+    deref h' eh = deref h eh := by
+  unfold deref
+  rw [readSlice_frame hf hv.1, readSlice_frame hf hv.2]
+  have hp : eh.pathRefs.map (fun i => ((obsAt h' i).data).getD []) =
+      eh.pathRefs.map (fun i => ((obsAt h i).data).getD []) := by
+    apply List.map_congr_left
+    intro i _
+    rw [hf.obs_eq i]
+  rw [hp]
+  have ht : tagsRead h' eh.tagRef = tagsRead h eh.tagRef := by
+    unfold tagsRead
+    cases eh.tagRef with
+    | none => rfl
+    | some i => simp only; rw [hf.obs_eq i]
+  rw [ht]
+
+theorem selectPath_some (paths : List KV) (hint : Int) (hp : paths ≠ []) (hh : 0 ≤ hint) :
+    selectPath paths hint ≠ none := by
+  unfold selectPath
+  simp only
+  have hlen : 0 < paths.length := List.length_pos_iff.mpr hp
+  by_cases hc : (paths.length : Int) > hint
+  · simp only [hc, if_true]
+    have : ¬ hint < 0 := by omega
+    simp only [this, if_false]
+    have hlt : hint.toNat < paths.length := by omega
+    rw [List.getElem?_eq_getElem hlt]
+    simp
+  · simp only [hc, if_false]
+    have : ¬ (0 : Int) < 0 := by omega
+    simp only [this, if_false, Int.toNat_zero]
+    rw [List.getElem?_eq_getElem hlen]
+    simp
+
+theorem normAt_nonneg (T : Tables) (hT : ∀ n ∈ T.norms, 0 ≤ n.objectPathIndex) (i : Nat) :
+    0 ≤ (normAt T i).objectPathIndex := by
+  unfold normAt
+  cases hn : T.norms[i]? with
+  | none => simp only [Option.getD_none]; decide
+  | some n => exact hT n (List.mem_of_getElem? hn)
+
 /-! ### the heap after `init` -/
 
 theorem initArrs_length (l : List Norm) : (initArrs l).length = 2 * l.length := by
